@@ -7,7 +7,7 @@ import itertools
 from sa import pat, source, tables
 from sa.cfg import cfg_of, conjuncts, guards, facts, holds, negate
 from sa.classes import is_logging_stmt
-from sa.minieval import CannotEval, ev
+from sa.minieval import CannotEval, Record, ev
 from sa.source import AnchorMissing, arg_of, dotted, is_self_attr, last_attr, local_defs, params_of, short, u, walk_body
 from sa.sym import UnknownAtom, atoms_of, bool_eval, oriented
 
@@ -46,6 +46,157 @@ def eval_with(test, vals):
             return self.generic_visit(n)
 
     return ev(S().visit(source.clone(test)), {})
+
+
+class CountedLines(list):
+    """a list standing for an open text file that is iterated line by line; `taken` = how many lines the last iteration consumed (a loop that stops early leaves the rest unread)."""
+
+    taken = 0
+
+    def __iter__(self):
+        self.taken = 0
+        for x in list.__iter__(self):
+            self.taken += 1
+            yield x
+
+
+def stored_names(nodes):
+    return {x.id for s_ in nodes for x in ast.walk(s_) if isinstance(x, ast.Name) and isinstance(x.ctx, (ast.Store, ast.Del))}
+
+
+def exec_small(stmts, env, lenient=False, until=None, steps=None):
+    """Interpretation of a small statement list on the representative values of `env` (name -> value, updated in place): every expression is evaluated by minieval, assignments (names,
+    tuple unpacking, augmented), if / for / while / break / continue / return / raise are followed; asserts, docstrings, logging and `pass` are skipped. Nothing of the repository runs.
+    -> (kind, value, node) with kind in fallthrough | return | raise | break | continue | until (the statement `until` was reached; it is not executed).
+    strict (default): anything beyond that raises CannotEval. lenient: a statement that cannot be evaluated makes every name it stores to unknown (removed from env) and the walk goes
+    on — used to learn which locals have a KNOWN value when `until` is reached (e.g. a parameter whose default None is resolved to a constant at call time); an `if` around `until` whose
+    test cannot be evaluated is entered on the side that leads to it."""
+    steps = steps if steps is not None else [0]
+
+    def holds_(s_):
+        return until is not None and s_ is not until and any(x is until for x in ast.walk(s_))
+
+    def bind(t, v, at):
+        if isinstance(t, ast.Name):
+            env[t.id] = v
+        elif isinstance(t, (ast.Tuple, ast.List)) and all(isinstance(e_, ast.Name) for e_ in t.elts):
+            if not isinstance(v, (list, tuple)) or len(v) != len(t.elts):
+                raise CannotEval(f"line {getattr(at, 'lineno', '?')}: {v!r} cannot be unpacked into {len(t.elts)} names: ValueError")
+            for e_, x in zip(t.elts, v):
+                env[e_.id] = x
+        else:
+            raise CannotEval(f"store to `{u(t)[:40]}`")
+
+    def loop(s_, items):
+        """runs the body once per item (None = a while loop: as long as its test holds); -> the outcome that leaves the enclosing block, or None."""
+        broke = False
+        it = iter(items) if items is not None else None
+        while True:
+            steps[0] += 1
+            if steps[0] > 4000:
+                raise CannotEval("too many steps")
+            if it is None:
+                if not ev(s_.test, env):
+                    break
+            else:
+                try:
+                    v = next(it)
+                except StopIteration:
+                    break
+                bind(s_.target, v, s_)
+            r = exec_small(s_.body, env, lenient, None, steps)
+            if r[0] == "break":
+                broke = True
+                break
+            if r[0] in ("return", "raise"):
+                return r
+        if not broke and s_.orelse:
+            r = exec_small(s_.orelse, env, lenient, None, steps)
+            if r[0] != "fallthrough":
+                return r
+        return None
+
+    for s in stmts:
+        steps[0] += 1
+        if steps[0] > 4000:
+            raise CannotEval("too many steps")
+        if s is until:
+            return "until", None, s
+        if holds_(s):
+            if isinstance(s, ast.If):
+                in_body = any(x is until for b_ in s.body for x in ast.walk(b_))
+                try:
+                    t = bool(ev(s.test, env))
+                except CannotEval:
+                    if not lenient:
+                        raise
+                    for nm in stored_names([s.test]):
+                        env.pop(nm, None)
+                    t = in_body
+                if t != in_body:
+                    raise CannotEval(f"line {until.lineno} is not reached for these values (`{u(s.test)[:50]}` is {t})")
+                return exec_small(s.body if t else s.orelse, env, lenient, until, steps)
+            if isinstance(s, (ast.With, ast.AsyncWith, ast.Try)):
+                if not any(x is until for b_ in s.body for x in ast.walk(b_)):
+                    raise CannotEval(f"line {until.lineno} lies in a handler / else / finally arm")
+                for nm in stored_names([it.optional_vars for it in getattr(s, "items", []) if it.optional_vars is not None]):
+                    env.pop(nm, None)
+                return exec_small(s.body, env, lenient, until, steps)
+            raise CannotEval(f"line {until.lineno} is nested in a {type(s).__name__} statement")
+        try:
+            if isinstance(s, ast.Assign):
+                v = ev(s.value, env)
+                for t in s.targets:
+                    bind(t, v, s)
+            elif isinstance(s, ast.AnnAssign):
+                if s.value is not None:
+                    bind(s.target, ev(s.value, env), s)
+            elif isinstance(s, ast.AugAssign):
+                if not isinstance(s.target, ast.Name):
+                    raise CannotEval(f"store to `{u(s.target)[:40]}`")
+                env[s.target.id] = ev(ast.BinOp(left=ast.Name(id=s.target.id, ctx=ast.Load()), op=s.op, right=s.value), env)
+            elif isinstance(s, ast.If):
+                r = exec_small(s.body if ev(s.test, env) else s.orelse, env, lenient, None, steps)
+                if r[0] != "fallthrough":
+                    return r
+            elif isinstance(s, ast.For):
+                items = ev(s.iter, env)
+                if not isinstance(items, (list, tuple, range, str, set, frozenset, dict)):
+                    raise CannotEval(f"iteration over `{u(s.iter)[:40]}`")
+                r = loop(s, items)
+                if r is not None:
+                    return r
+            elif isinstance(s, ast.While):
+                r = loop(s, None)
+                if r is not None:
+                    return r
+            elif isinstance(s, ast.Return):
+                return "return", (None if s.value is None else ev(s.value, env)), s
+            elif isinstance(s, ast.Raise):
+                return "raise", s.exc, s
+            elif isinstance(s, ast.Break):
+                return "break", None, s
+            elif isinstance(s, ast.Continue):
+                return "continue", None, s
+            elif isinstance(s, (ast.Pass, ast.Assert, ast.Import, ast.ImportFrom, ast.Global, ast.Nonlocal)) or is_logging_stmt(s) or (isinstance(s, ast.Expr) and isinstance(s.value, ast.Constant)):
+                pass
+            elif lenient and isinstance(s, (ast.With, ast.AsyncWith)):
+                for nm in stored_names([it.optional_vars for it in s.items if it.optional_vars is not None]):
+                    env.pop(nm, None)
+                r = exec_small(s.body, env, lenient, None, steps)
+                if r[0] != "fallthrough":
+                    return r
+            else:
+                raise CannotEval(f"statement `{short(s, 50)}` at line {getattr(s, 'lineno', '?')}")
+        except CannotEval:
+            if not lenient:
+                raise
+            # unknown effect: whatever the statement may store to is unknown from here on (a receiver of a method call statement — `xs.append(...)` — included)
+            for nm in stored_names([s]):
+                env.pop(nm, None)
+            if isinstance(s, ast.Expr) and isinstance(s.value, ast.Call) and isinstance(s.value.func, ast.Attribute) and isinstance(s.value.func.value, ast.Name):
+                env.pop(s.value.func.value.id, None)
+    return "fallthrough", None, None
 
 
 def compared_with(test, name):
@@ -364,32 +515,40 @@ def offset_table_protocol(chk, io_mod, rid):
     rd = [n for n in walk_body(fc) if isinstance(n, ast.Assign) and len(n.targets) == 1 and isinstance(n.targets[0], ast.Tuple) and source.enclosing(n, ast.For) is not None
           and any(isinstance(x, ast.Name) and isinstance(source.enclosing(n, ast.For).target, ast.Name) and x.id == source.enclosing(n, ast.For).target.id
                   for x in ast.walk(source.inline_node(n.value, fdefs)))]
-    ln = off = floop = None
+    # what add_offset writes for one (line number, offset) pair: its print(..., file=...) / write(...) argument evaluated on the pair (minieval; nothing runs)
+    wexpr = [arg_of(c, 0, None) for c in walk_body(ao) if isinstance(c, ast.Call) and ((dotted(c.func) == "print" and arg_of(c, None, "file") is not None) or last_attr(c.func) == "write") and c.args]
+
+    def entry(n_, o_):
+        if len(wexpr) != 1:
+            raise CannotEval("the print(..., file=...) / write(...) call of add_offset")
+        text_ = ev(wexpr[0], {ap[1]: n_, ap[2]: o_})
+        if not isinstance(text_, str):
+            raise CannotEval("the written entry is not a string")
+        return text_.rstrip("\n") + "\n"
+
+    floop = None
+    roles_unknown = None  # (message, node) when the two parsed fields cannot be told apart by use: the format is then decided on the reader as a whole (below)
     if not rd or not (len(rd[0].targets[0].elts) == 2 and all(isinstance(t, ast.Name) for t in rd[0].targets[0].elts)):
-        chk.unknown(rid, "FileOffsetTable.find_closest_offset: the statement that unpacks one table entry (read in a for loop over the table) into two names cannot be located", fc)
+        roles_unknown = ("FileOffsetTable.find_closest_offset: the statement that unpacks one table entry (read in a for loop over the table) into two names cannot be located", fc)
     else:
         floop = source.enclosing(rd[0], ast.For)
         n0, n1 = [t.id for t in rd[0].targets[0].elts]
         # roles of the two parsed fields, by use: the line number is the one compared with the target line, the offset the one that flows into the first element of the returned pair
+        # (directly, or through a local of the loop: `closest = offset` ... `return closest, ...`)
         ret_t = returned(rr[0]) if rr else None
         ret0 = u(ret_t.elts[0]) if isinstance(ret_t, ast.Tuple) and ret_t.elts else None
         cmp_ = [nm for nm in (n0, n1) if any(isinstance(x, ast.Compare) and len(x.ops) == 1 and {u(x.left), u(x.comparators[0])} == {nm, tgt} for x in ast.walk(floop))]
         flows = [nm for nm in (n0, n1) if ret0 is not None and any(isinstance(x, ast.Assign) and u(x.targets[0]) == ret0 and u(x.value) == nm for x in ast.walk(floop))]
         if len(cmp_) != 1 or len(flows) != 1 or cmp_ == flows:
-            chk.unknown(rid, f"FileOffsetTable.find_closest_offset: which parsed field is compared with `{tgt}` and which one becomes the returned offset cannot be told (compared: {cmp_}, returned: {flows})", rd[0])
+            roles_unknown = (f"FileOffsetTable.find_closest_offset: which parsed field is compared with `{tgt}` and which one becomes the returned offset cannot be told (compared: {cmp_}, returned: {flows})", rd[0])
         else:
             ln, off = cmp_[0], flows[0]
             # what the writer prints for (line number 7, offset 1234) is parsed by the reader's own expression (minieval; nothing runs): the field compared with the target must come out as 7,
             # the field that becomes the offset as 1234 — separator, field order, conversions all decided on the values
-            wexpr = [arg_of(c, 0, None) for c in walk_body(ao) if isinstance(c, ast.Call) and ((dotted(c.func) == "print" and arg_of(c, None, "file") is not None) or last_attr(c.func) == "write") and c.args]
             try:
-                if len(wexpr) != 1:
-                    raise CannotEval("the print(..., file=...) / write(...) call of add_offset")
-                text = ev(wexpr[0], {ap[1]: 7, ap[2]: 1234})
-                if not isinstance(text, str):
-                    raise CannotEval("the written entry is not a string")
+                text = entry(7, 1234)
                 try:
-                    got = ev(source.inline_node(rd[0].value, fdefs), {floop.target.id: text.rstrip("\n") + "\n"})
+                    got = ev(source.inline_node(rd[0].value, fdefs), {floop.target.id: text})
                     got = list(got) if isinstance(got, (list, tuple)) else None
                 except CannotEval as x:
                     if not str(x).endswith(("ValueError", "IndexError")):
@@ -403,22 +562,58 @@ def offset_table_protocol(chk, io_mod, rid):
                     chk.ob(rid, "writer format and reader parse agree (separator, field order)", ok, rd[0], f"writer prints {text!r} for (line 7, offset 1234); reader takes line={env_[ln]!r}, offset={env_[off]!r}")
             except CannotEval as x:
                 chk.unknown(rid, f"FileOffsetTable: the written entry / the reader's parse cannot be evaluated: {x}", rd[0])
-            retn = {u(e_) for e_ in ret_t.elts}
-            stores = [n for n in ast.walk(floop) if isinstance(n, ast.Assign) and n is not rd[0] and isinstance(n.targets[0], ast.Name) and n.targets[0].id in retn]  # stores to the returned locals
-            brks = [n for n in ast.walk(floop) if isinstance(n, ast.Break)]
-            if not stores or not brks:
-                chk.unknown(rid, "FileOffsetTable.find_closest_offset: the search loop is not of the form 'remember the entry while L <= target, stop at the first larger one'", floop)
-            else:
-                vals = {u(s_.value) for s_ in stores}
-                ok = all(holds(s_, f"{ln} <= {tgt}", stop=floop) for s_ in stores) and all(holds(b_, f"{ln} > {tgt}", stop=floop) for b_ in brks) and off in vals and f"{tgt} - {ln}" in vals
-                chk.ob(rid, "reader: largest L <= target, remaining = target - L, stops at the first larger entry", ok, fc, "")
-    inits = {u(n.targets[0]): n.value for n in walk_body(fc) if isinstance(n, ast.Assign) and isinstance(n.targets[0], ast.Name) and source.enclosing(n, ast.For) is None}
-    rt_ = returned(rr[0]) if rr else None
-    if not (isinstance(rt_, ast.Tuple) and len(rt_.elts) == 2 and all(u(e_) in inits for e_ in rt_.elts)):
-        chk.unknown(rid, "FileOffsetTable.find_closest_offset: the returned (offset, remaining lines) pair of locals initialised before the loop cannot be located", rr[0] if rr else fc)
+    # The search itself, decided on VALUES: find_closest_offset is interpreted (exec_small: minieval for every expression, nothing runs) on tables made of what the writer prints for
+    # ascending entries — role 'the open table file' = the attribute __enter__ binds the open() result to. Whatever the shape of the loop (if/else or guard clause, the remainder kept
+    # in lock-step or computed once at the end, one or two remembered locals), the result must be (offset(L), target - L) for the largest L <= target, (0, target) without such an entry.
+    ent_ = fm.get("__enter__")
+    fattrs = sorted({n.targets[0].attr for n in (walk_body(ent_) if ent_ is not None else []) if isinstance(n, ast.Assign) and len(n.targets) == 1 and is_self_attr(n.targets[0])
+                     and isinstance(n.value, ast.Call) and dotted(n.value.func) in ("open", "io.open")})
+    entries = [(5, 100), (10, 250), (15, 300)]
+
+    def probe(table, target):
+        """(what find_closest_offset returns, number of table lines it consumed) for one table and target line."""
+        lines = CountedLines(entry(n_, o_) for n_, o_ in table)
+        kind, val, node_ = exec_small(fc.body, {"self": Record(**{a_: lines for a_ in fattrs}), tgt: target})
+        if kind == "raise":
+            raise CannotEval(f"the reader ends in `{short(node_, 50)}` for target line {target}")
+        return (tuple(val) if isinstance(val, (list, tuple)) else val), lines.taken
+
+    def want(table, target):
+        best = max([e_ for e_ in table if e_[0] <= target], default=(0, 0))
+        return best[1], target - best[0]
+
+    whole = None  # True / False: the reader as a whole is right / wrong on every probe; None: it cannot be evaluated
+    if not fattrs:
+        chk.unknown(rid, "FileOffsetTable.__enter__: the attribute that receives the open() result (the table file the reader iterates) cannot be located", ent_ or FT)
     else:
-        ok = source.is_const(inits[u(rt_.elts[0])], 0) and u(inits[u(rt_.elts[1])]) == tgt
-        chk.ob(rid, "reader defaults: offset 0 and all lines remaining", ok, rr[0], "")
+        try:
+            wrong, reads_on = [], False
+            for t_ in (5, 6, 9, 10, 14, 15, 16, 1000):
+                got, taken = probe(entries, t_)
+                if got != want(entries, t_) or not all(type(x) is int for x in got):
+                    wrong.append(f"target line {t_}: returns {got!r}, expected {want(entries, t_)!r}")
+                reads_on = reads_on or taken > min(len([e_ for e_ in entries if e_[0] <= t_]) + 1, len(entries))
+            chk.ob(rid, "reader: largest L <= target, remaining = target - L, stops at the first larger entry", not wrong, floop or fc,
+                   f"table {entries}: " + ("; ".join(wrong[:3]) if wrong else "right for every probed target" + (" (the scan reads on behind the first larger entry: same result on an ascending table)" if reads_on else "")))
+            wrong_d = []
+            for table, t_ in (([], 0), ([], 7), (entries, 0), (entries, 4)):
+                got, _ = probe(table, t_)
+                if got != (0, t_):
+                    wrong_d.append(f"{'empty table' if not table else f'table {table}'}, target line {t_}: returns {got!r}, expected {(0, t_)!r}")
+            chk.ob(rid, "reader defaults: offset 0 and all lines remaining", not wrong_d, rr[0] if rr else fc, "; ".join(wrong_d[:3]))
+            whole = not wrong and not wrong_d
+        except CannotEval as x:
+            if str(x).endswith(("ValueError", "IndexError")):
+                # the reader's own conversion / unpacking fails on what the writer wrote
+                chk.ob(rid, "reader: largest L <= target, remaining = target - L, stops at the first larger entry", False, floop or fc, f"the reader fails on a table written by add_offset: {x}")
+                whole = False
+            else:
+                chk.unknown(rid, f"FileOffsetTable.find_closest_offset cannot be evaluated on a representative table: {x}", fc)
+    if roles_unknown is not None:
+        if whole:
+            chk.ob(rid, "writer format and reader parse agree (separator, field order)", True, fc, "decided on the reader as a whole: it finds the right (offset, remaining lines) in tables written by add_offset")
+        elif whole is None:
+            chk.unknown(rid, roles_unknown[0], roles_unknown[1])
     sk = io_mod.func("skip_lines")
     skp = params(sk, 3)
     gs_ = cfg_of(sk)
@@ -1411,7 +1606,8 @@ def run(chk):
         "parameters, calls followed into helper functions / methods of the same module / class with the arguments expressed in the caller's terms) and decisions are taken on "
         "representative values (tables.decide + minieval on the extracted tests: size / line-count mismatch tables, retry handler per loop index, extension dispatch incl. module-level "
         "dispatch tables, splitext on concrete names, the scanning loop per readline() result, is_valid per (exists, mtimes), the written table entry parsed by the reader's own "
-        "expression); a role that cannot be located is reported as not recognised (exit 2), never as a violation."
+        "expression, find_closest_offset interpreted statement by statement on tables written by add_offset, the retry budget on the values the locals have when the loop is reached "
+        "for the call net.download makes); a role that cannot be located is reported as not recognised (exit 2), never as a violation."
     )
     chk.not_decided = "archive contents, real network behaviour, crash points inside library calls (a kill between two statements of the offset-table build is covered by the rename protocol O14.8; a torn write inside os.replace is not)."
 
@@ -1565,6 +1761,28 @@ def run(chk):
                 menv[st_.targets[0].id] = ast.literal_eval(st_.value)
             except (ValueError, SyntaxError):
                 pass
+    # ... and the locals / parameters with a KNOWN value when the loop is reached, for the call net.download makes (role: the transfer on the corpus path): every parameter the call does
+    # not pass has its default, and the statements in front of the loop are interpreted on those values (exec_small, lenient: what cannot be evaluated becomes unknown) — a budget
+    # that is a keyword parameter `retries=None`, resolved to the module constant at call time, reads like the constant itself
+    try:
+        a = dh.args
+        pvals = {}
+        for nm, dv in list(zip([x.arg for x in a.posonlyargs + a.args][len(a.posonlyargs + a.args) - len(a.defaults):], a.defaults)) + [(x.arg, dv) for x, dv in zip(a.kwonlyargs, a.kw_defaults) if dv is not None]:
+            try:
+                pvals[nm] = ev(dv, dict(menv))
+            except CannotEval:
+                pass
+        for c_, a_, k_, r_ in [w_ for w_ in reach if last_attr(w_[0].func) == "download_http"][:1]:
+            for nm, e_ in bound_params(a_, k_, dh).items():
+                try:
+                    pvals[nm] = ev(e_, dict(menv))
+                except CannotEval:
+                    pvals.pop(nm, None)
+        lenv = dict(menv, **pvals)
+        if exec_small(dh.body, lenv, lenient=True, until=L)[0] == "until":
+            menv = {k: v for k, v in lenv.items() if v is None or isinstance(v, (bool, int, float, str, bytes, tuple))}
+    except CannotEval:
+        pass  # the values in front of the loop stay unknown: whatever depends on them is reported as not recognised below
     attempts = None
     if isinstance(L.iter, ast.Call) and dotted(L.iter.func) == "range" and L.iter.args and not L.iter.keywords:
         try:
@@ -2040,6 +2258,20 @@ def run(chk):
 
 from sa.selftest import V  # noqa: E402
 
+_FC_OLD = ('        prior_offset = 0\n        prior_remaining_lines = target_line_number\n\n        assert self.offset_file is not None, "File offset table must be opened in a context manager block."\n'
+           '        for line in self.offset_file:\n            line_number, offset_in_bytes = (int(i) for i in line.strip().split(";"))\n            if line_number <= target_line_number:\n'
+           '                prior_offset = offset_in_bytes\n                prior_remaining_lines = target_line_number - line_number\n            else:\n                break\n\n'
+           '        return prior_offset, prior_remaining_lines\n')
+_FC_NEW = ('        assert self.offset_file is not None, "File offset table must be opened in a context manager block."\n        closest_line_number = 0\n        closest_offset = 0\n'
+           '        for line in self.offset_file:\n            line_number, offset_in_bytes = (int(i) for i in line.strip().split(";"))\n            if line_number > target_line_number:\n'
+           '                break\n            closest_line_number = line_number\n            closest_offset = offset_in_bytes\n\n'
+           '        return closest_offset, target_line_number - closest_line_number\n')
+_DH_OLD = ('def download_http(url, local_path, expected_size_in_bytes=None, progress_indicator=None, *, sleep=time.sleep):\n    logger = logging.getLogger(__name__)\n'
+           '    for i in range(HTTP_DOWNLOAD_RETRIES + 1):\n')
+_DH_NEW = ('def download_http(url, local_path, expected_size_in_bytes=None, progress_indicator=None, *, sleep=time.sleep, retries=None, retry_delay=None):\n'
+           '    logger = logging.getLogger(__name__)\n    if retries is None:\n        retries = HTTP_DOWNLOAD_RETRIES\n    if retry_delay is None:\n        retry_delay = 5\n'
+           '    if retries < 0:\n        raise ValueError(f"retries must not be negative but was [{retries}]")\n    for i in range(retries + 1):\n')
+
 VARIANTS = [
     V("F14: truthiness on the line count", "break", _L, "        if lines_read is not None and lines_read != expected_number_of_lines:", "        if lines_read and lines_read != expected_number_of_lines:", "O14.4"),
     V("write to the final path", "break", _N, "            expected_size_in_bytes = download_http(url, tmp_data_set_path, expected_size_in_bytes, progress_indicator)", "            expected_size_in_bytes = download_http(url, local_path, expected_size_in_bytes, progress_indicator)", "O14.1"),
@@ -2243,4 +2475,27 @@ VARIANTS = [
      V('', 'keep', _I, 'def prepare_file_offset_table(', 'def _publish(tmp_path, final_path):\n    os.replace(tmp_path, final_path)\n\n\ndef prepare_file_offset_table(')],
     [V('F24: extracted publishing helper renames in the wrong direction', 'break', _I, '            os.replace(file_offset_table.offset_table_path, final_path)\n', '            _publish(file_offset_table.offset_table_path, final_path)\n', 'O14.8'),
      V('', 'break', _I, 'def prepare_file_offset_table(', 'def _publish(tmp_path, final_path):\n    os.replace(final_path, tmp_path)\n\n\ndef prepare_file_offset_table(')],
+    # ---- hardening round 3: the reader of the offset table and the retry budget are decided on values (exec_small) ------------------------------------------------
+    V('reader as a guard clause: the closest entry is remembered, the remainder computed once at the end', 'keep', _I, _FC_OLD, _FC_NEW),
+    V('reader as a guard clause that also stops AT the target line (entry L == target is not used)', 'break', _I, _FC_OLD, _FC_NEW.replace('if line_number > target_line_number:', 'if line_number >= target_line_number:'), 'O14.6'),
+    V('reader as a guard clause: the offset is remembered before the guard (offset of the first larger entry)', 'break', _I, _FC_OLD,
+      _FC_NEW.replace('            closest_line_number = line_number\n            closest_offset = offset_in_bytes\n', '            closest_line_number = line_number\n')
+      .replace('            if line_number > target_line_number:', '            closest_offset = offset_in_bytes\n            if line_number > target_line_number:'), 'O14.6'),
+    V('reader as a guard clause: without a matching entry one line too few remains', 'break', _I, _FC_OLD, _FC_NEW.replace('        closest_line_number = 0\n', '        closest_line_number = 1\n'), 'O14.6'),
+    V('reader without the early break (same result on an ascending table)', 'keep', _I, '                prior_remaining_lines = target_line_number - line_number\n            else:\n                break\n',
+      '                prior_remaining_lines = target_line_number - line_number\n'),
+    V('reader keeps the remainder relative to the wrong local (offset instead of line number)', 'break', _I, '                prior_remaining_lines = target_line_number - line_number\n',
+      '                prior_remaining_lines = target_line_number - offset_in_bytes\n', 'O14.6'),
+    V('reader starts from offset 1', 'break', _I, '        prior_offset = 0\n        prior_remaining_lines = target_line_number\n', '        prior_offset = 1\n        prior_remaining_lines = target_line_number\n', 'O14.6'),
+    [V('retry budget as a keyword parameter resolved at call time (retries=None -> module constant)', 'keep', _N, _DH_OLD, _DH_NEW),
+     V('', 'keep', _N, '            if i == HTTP_DOWNLOAD_RETRIES:\n                raise\n            logger.warning("Retrying after %s", exc)\n            sleep(5)\n',
+       '            if i == retries:\n                logger.warning("Giving up on [%s] after %d failed attempts.", url, i + 1)\n                raise\n            logger.warning("Retrying after %s (attempt %d of %d failed)", exc, i + 1, retries + 1)\n            sleep(retry_delay)\n')],
+    [V('retry budget parameter: one attempt too few, the last error is swallowed', 'break', _N, _DH_OLD, _DH_NEW.replace('for i in range(retries + 1):', 'for i in range(retries):'), 'O14.2'),
+     V('', 'break', _N, '            if i == HTTP_DOWNLOAD_RETRIES:\n', '            if i == retries:\n')],
+    [V('retry budget parameter: the default resolves to no retry at all', 'break', _N, _DH_OLD, _DH_NEW.replace('        retries = HTTP_DOWNLOAD_RETRIES\n', '        retries = 0\n'), 'O14.2'),
+     V('', 'break', _N, '            if i == HTTP_DOWNLOAD_RETRIES:\n', '            if i == retries:\n')],
+    [V('retry budget parameter: net.download passes retries=0 on the corpus path', 'break', _N, _DH_OLD, _DH_NEW, 'O14.2'),
+     V('', 'break', _N, '            if i == HTTP_DOWNLOAD_RETRIES:\n', '            if i == retries:\n'),
+     V('', 'break', _N, '            expected_size_in_bytes = download_http(url, tmp_data_set_path, expected_size_in_bytes, progress_indicator)',
+       '            expected_size_in_bytes = download_http(url, tmp_data_set_path, expected_size_in_bytes, progress_indicator, retries=0)')],
 ]
